@@ -133,7 +133,8 @@ def correspondence(chk: common.Check, corpus, variant, own, rng, n_synth: int, t
             wf_false += 1
         if blk["wf"] and not blk["agree"]:
             contradictions += 1
-            chk.broken_correspondence("theorem-vs-model", {"case": case["label"], "detail": "wellGrouped holds but impl and spec skeletons differ"})
+            chk.broken_correspondence("theorem-vs-model", {"case": case["label"], "detail": "the hypothesis of C02_intensity holds but impl and spec skeletons differ"})
+        dist["I-components-rewritten-by-sympy-Abs(skipped)"] += case["obs"].get("unparsed_I", 0)
         if d is not None:
             n_bad += 1
             if n_bad <= 3:
@@ -141,8 +142,8 @@ def correspondence(chk: common.Check, corpus, variant, own, rng, n_synth: int, t
                                                             "flags": case["flags"], **{k: str(v)[:400] for k, v in d.items()}})
     chk.info("correspondence_cases", len(cases))
     chk.info("correspondence_mismatches", n_bad)
-    chk.info("cases_where_hypothesis_wellGrouped_is_false", wf_false)
-    chk.info("cases_where_wellGrouped_holds_but_skeletons_differ", contradictions)
+    chk.info("cases_where_the_theorem_hypothesis_is_false", wf_false)
+    chk.info("cases_where_the_hypothesis_holds_but_skeletons_differ", contradictions)
     chk.info("input_distribution", dict(dist))
     for case in cases[:1] + cases[-1:]:
         amps = case["obs"]["amplitudes"]
@@ -156,14 +157,39 @@ def correspondence(chk: common.Check, corpus, variant, own, rng, n_synth: int, t
 # --------------------------------------------------------------------------- oracle
 
 
-def numeric_compare(reaction, couplings, flags, rng, n_points):
+def _lineshape_symbol_name(parent_name, m_parent, m1, m2, phi, theta, ell):
+    return f"X[{parent_name};{m_parent};{m1};{m2};{phi};{theta};{ell}]"
+
+
+def _assign_marker_lineshapes(builder, reaction):
+    """Every resonance gets an opaque 'lineshape' symbol that records the particle and the complete
+    variable set it was built with (an arbitrary interpretation of the lineshape)."""
+    import sympy as sp
+
+    def marker(particle, vs):
+        return sp.Symbol(_lineshape_symbol_name(
+            particle.name, vs.incoming_state_mass.name, vs.outgoing_state_mass1.name, vs.outgoing_state_mass2.name,
+            vs.helicity_phi.name, vs.helicity_theta.name, vs.angular_momentum)), {}
+
+    names = {t.states[e].particle.name for t in reaction.transitions for e in t.topology.intermediate_edge_ids}
+    for n in sorted(names):
+        builder.dynamics.assign(n, marker)
+
+
+def numeric_compare(reaction, couplings, flags, rng, n_points, lineshapes=False):
     """lambdified real expression vs the helicity formula; returns (failure dict | None, evaluations)."""
     import numpy as np
     import sympy as sp
 
-    obs = M.observe(reaction, couplings, flags)
+    if lineshapes:
+        builder = L.make_builder(reaction, flags, use_helicity_couplings=couplings)
+        _assign_marker_lineshapes(builder, reaction)
+        obs = {"model": builder.formulate(), "builder": builder}
+    else:
+        obs = M.observe(reaction, couplings, flags)
     model, builder = obs["model"], obs["builder"]
     naming = builder.naming
+    xvals: dict[str, complex] = {}
     pre = getattr(builder, "_HelicityAmplitudeBuilder__generate_amplitude_prefactor", None)
     values = {p.name: complex(rng.uniform(-1, 1), rng.uniform(-1, 1)) for p in model.parameter_defaults
               if p.name.startswith(("C_{", "H_{"))}
@@ -178,7 +204,32 @@ def numeric_compare(reaction, couplings, flags, rng, n_points):
         p = pre(g) if pre is not None else None
         return v * (1 if p is None else int(p))
 
-    expr = model.expression.xreplace({p: values[p.name] for p in model.parameter_defaults if p.name in values}).doit()
+    def lineshape_of(topo, states, interactions, n, pin, c1, c2):
+        """independent prediction of which lineshape symbol a node carries, with which variables."""
+        if topo.edges[pin].originating_node_id is None:
+            return 1.0
+        ell = interactions[n].l_magnitude
+        spin = states[pin].particle.spin
+        if ell is None and float(spin) == int(spin):
+            ell = int(spin)
+        suf = O.angle_suffix(topo, c1)
+        name = _lineshape_symbol_name(
+            states[pin].particle.name, "m_" + "".join(map(str, O.attached(topo, pin))),
+            "m_" + "".join(map(str, O.attached(topo, c1))), "m_" + "".join(map(str, O.attached(topo, c2))),
+            "phi" + suf, "theta" + suf, ell)
+        if name not in xvals:
+            xvals[name] = complex(rng.uniform(0.5, 1.5), rng.uniform(-1, 1))
+        return xvals[name]
+
+    expr = model.expression.xreplace({p: values[p.name] for p in model.parameter_defaults if p.name in values})
+    if lineshapes:
+        # fix the interpretation of every lineshape symbol the real model contains
+        xs = [s_ for s_ in expr.free_symbols if s_.name.startswith("X[")]
+        for s_ in xs:
+            if s_.name not in xvals:
+                xvals[s_.name] = complex(rng.uniform(0.5, 1.5), rng.uniform(-1, 1))
+        expr = expr.xreplace({s_: xvals[s_.name] for s_ in xs})
+    expr = expr.doit()
     syms = sorted(expr.free_symbols, key=lambda s: s.name)
     names = set(O.all_angle_names(reaction)) | {s.name for s in syms}
     odd = [s.name for s in syms if not s.name.startswith(("phi", "theta"))]
@@ -190,7 +241,7 @@ def numeric_compare(reaction, couplings, flags, rng, n_points):
         ang = {n: (rng.uniform(0.1, math.pi - 0.1) if n.startswith("theta") else rng.uniform(-math.pi, math.pi))
                for n in sorted(names)}
         real = float(np.real(complex(f(*[ang[s.name] for s in syms]))))
-        spec, n_terms, n_conf = O.spec_intensity(reaction, coefficient_of, ang)
+        spec, n_terms, n_conf = O.spec_intensity(reaction, coefficient_of, ang, lineshape_of if lineshapes else None)
         scale = max(abs(spec), abs(real), 1e-300)
         if abs(real - spec) > 1e-9 * scale and (worst is None or abs(real - spec) / scale > worst["relative_difference"]):
             worst = {"angles": ang, "model_expression": real, "helicity_formula": spec,
@@ -200,7 +251,8 @@ def numeric_compare(reaction, couplings, flags, rng, n_points):
     comp_sum_fail = None
     try:
         total = sum(v for k, v in model.components.items() if k.startswith("I_{"))
-        total = total.xreplace({p: values[p.name] for p in model.parameter_defaults if p.name in values}).doit()
+        total = total.xreplace({p: values[p.name] for p in model.parameter_defaults if p.name in values})
+        total = total.xreplace({s_: xvals[s_.name] for s_ in total.free_symbols if s_.name in xvals}).doit()
         fs = sorted(total.free_symbols, key=lambda s: s.name)
         g = sp.lambdify(fs, total, "numpy")
         ang = {n: (rng.uniform(0.1, math.pi - 0.1) if n.startswith("theta") else rng.uniform(-math.pi, math.pi))
@@ -237,10 +289,15 @@ def oracle(chk: common.Check, corpus, cases, rng, thorough: bool, broken: bool):
     k = (12 if thorough else 3) * (3 if broken else 1)
     for c in hyp[: (6 if thorough else 2)] + rest[:k]:
         todo.append((c["label"], c["reaction"], c["couplings"], c["flags"]))
+    ls_names = [n for n in names if n.startswith(("jpsi_gamma_pi0_pi0_omega_f0", "lambdac_p_k_pi.hel", "jpsi_sigma1750.can"))]
+    for n in ls_names[: (6 if thorough else 2)]:
+        r = corpus[n]
+        todo.append((n + "+lineshapes", r, False, default_flags(r.formalism.startswith("canonical"))))
     n_done = 0
     for label, r, couplings, flags in todo:
+        with_ls = label.endswith("+lineshapes")
         try:
-            fail, n = numeric_compare(r, couplings, flags, rng, 3 if not thorough else 6)
+            fail, n = numeric_compare(r, couplings, flags, rng, 3 if not thorough else 6, lineshapes=with_ls)
         except Exception as e:  # noqa: BLE001
             fail, n = {"what": "the real code raised while the property was evaluated",
                        "error": "".join(traceback.format_exception(type(e), e, e.__traceback__))[-1200:]}, 0
@@ -298,6 +355,7 @@ class C02Property:
         except Exception as e:  # noqa: BLE001
             chk.broken_correspondence("real-code", "".join(traceback.format_exception(type(e), e, e.__traceback__))[-1200:])
 
+        own_inferred = bool(chk.coverage.get("inferred_amplitude_registration", "own").startswith("own"))
         found = []
         try:
             found = oracle(chk, corpus, cases, common.rng_for(PROP_ID, seed, "oracle"), thorough, bool(chk.broken))
@@ -306,7 +364,8 @@ class C02Property:
                       "error": "".join(traceback.format_exception(type(e), e, e.__traceback__))[-1500:]}]
         seen = set()
         for f in found:
-            if f.get("identical_particles_with_unequal_helicities") and f["what"].startswith("model expression differs"):
+            if (not own_inferred and f.get("identical_particles_with_unequal_helicities")
+                    and f["what"].startswith("model expression differs")):
                 sig = {"class": KNOWN_CLASS}
             else:
                 sig = {"what": f["what"]}
@@ -333,8 +392,10 @@ class C02Property:
             "qrules: transitions, identical-particle combinatorics (compared with the model's symmetrisation, not trusted)",
         ]
         chk.assumptions += [
-            "C02_intensity assumes the decidable grouping condition wellGrouped (evaluated per case; false exactly for identical "
-            "final-state particles with unequal helicities, where the real intensity differs from the helicity formula)",
+            "C02_intensity assumes the decidable condition wellFormed (isobar graphs, amplitude bases name topologies injectively, "
+            "graphs of different spin groups have different outer projections), evaluated by the Lean model on every case; for "
+            "the builder up to 043d8fb it additionally needs wellGrouped (false for identical final-state particles with unequal "
+            "helicities: witness theorem)",
             "lineshapes: default (no dynamics) in the correspondence; dynamics attachment is C13's property",
         ]
         return chk.finish()
@@ -348,14 +409,16 @@ MANIFEST = {
     "design_ref": "DESIGN.md §3 C02",
     "text": (
         "Proof. For every reaction (any number of transitions, nodes, spins; both formalisms; coefficient or coupling mode; all "
-        "naming flags) satisfying the decidable grouping condition wellGrouped, and for EVERY interpretation of D, CG, "
+        "naming flags) satisfying the decidable condition wellFormed (evaluated on every case), and for EVERY interpretation of D, CG, "
         "parameters and |.|^2 in any commutative ring: C02_intensity (denotation of the impl skeleton = denotation of the "
         "helicity-formula spec skeleton: incoherent over per-state outer projections, coherent over all symmetrised graphs with "
         "those projections), C02_term (each graph's impl term = spec term: D^J_{m,l1-l2}(phi,theta of the first child), the two "
         "CG factors), C02_components (the I_ component of a spin group denotes the partial sum of its outer configuration; "
-        "A_ components are single graph terms), C02_symmetrised (the term list of a cell is the image of its transitions' "
-        "symmetrised graphs, each once). Kernel-checked witness C02_witness_unequal_identical: for two identical final-state "
-        "particles with unequal helicities wellGrouped fails and impl != spec (replayed on psi(2S) -> gamma gamma J/psi). "
+        "A_ components are single graph terms), C02_symmetrised + C02_cell_total (the graphs of a transition are exactly its "
+        "relabelings by permutations of identical final-state particles, one per attachment; the writes of a cell add up to all "
+        "of them, nothing dropped or doubled). Kernel-checked witness C02_witness_unequal_identical: with the builder up to "
+        "043d8fb two identical final-state particles with unequal helicities were summed coherently (impl != spec; replayed on "
+        "psi(2S) -> gamma gamma J/psi; repaired as f1f7ff8, the variant is inferred by a probe on every run). "
         "Special functions are uninterpreted (no Wigner-D/CG theory needed); numeric agreement of the real lambdified "
         "expression with an independent numpy evaluation of the formula is checked on every run (oracle), not proved."
     ),
